@@ -24,7 +24,7 @@ Example ex_C05_pragma_once :
  y;
 }") = s2l "OK|(FileAST [(FuncDef (Decl 'f' [] [] [] [] (FuncDecl None (TypeDecl 'f' [] None (IdentifierType ['void']))) None None) None (Compound [(Pragma 'p1'),(ID 'x'),(If (ID 'a') (Compound [(Pragma 'p2'),(ID 'y')]) None)]))])".
 Proof. vm_compute. reflexivity. Qed.
-(* witness: a static assertion as a sub-statement puts a list into a statement slot *)
-Example ex_C05_static_assert_stmt_refuted :
-  outcome_str (s2l "void f(){ if (x) _Static_assert(1,""a""); }") = s2l "OK|(FileAST [(FuncDef (Decl 'f' [] [] [] [] (FuncDecl None (TypeDecl 'f' [] None (IdentifierType ['void']))) None None) None (Compound [(If (ID 'x') [(StaticAssert (Constant 'int' '1') (Constant 'string' '""a""'))] None),(EmptyStatement)]))])".
+(* a static assertion as a sub-statement is one node, like any statement (was a Python list before the fix: commit) *)
+Example ex_C05_static_assert_stmt :
+  outcome_str (s2l "void f(){ if (x) _Static_assert(1,""a""); }") = s2l "OK|(FileAST [(FuncDef (Decl 'f' [] [] [] [] (FuncDecl None (TypeDecl 'f' [] None (IdentifierType ['void']))) None None) None (Compound [(If (ID 'x') (StaticAssert (Constant 'int' '1') (Constant 'string' '""a""')) None),(EmptyStatement)]))])".
 Proof. vm_compute. reflexivity. Qed.
